@@ -512,6 +512,10 @@ class FnA:
         if callee in TRANSPARENT or (callee and callee.replace("core::", "std::") in TRANSPARENT):
             if args:
                 return self.origin_operand(args[0], bi, pos, depth, seen)
+        if callee == "std::iter::Iterator::map" and len(args) == 2 and "k" in args[1] and "fn" in args[1]["k"]:
+            f = args[1]["k"]["fn"]
+            if f in TRANSPARENT or f.replace("core::", "std::") in TRANSPARENT:
+                return self.origin_operand(args[0], bi, pos, depth, seen)   # it.map(AsRef::as_ref) yields the items of it
         if callee in LEN_CALLEES and args:
             return ("len", self.origin_operand(args[0], bi, pos, depth, seen))
         if callee in POLL:
@@ -723,6 +727,8 @@ def wrap_payload(kind, t):
         return ("never",)
     if t[0] == "never":
         return t
+    if t[0] == "call" and len(t) == 4 and t[2] in FROM_RESIDUAL and kind in ("ok", "some"):
+        return ("never",)   # `?`'s from_residual only ever builds the Err / None variant
     return (kind, t)
 
 
